@@ -7,7 +7,7 @@ From Coq Require Import List Arith Bool ZArith.
 Import ListNotations.
 Require Import MV.C10.Prelude MV.C10.Gen MV.C10.Model MV.C10.Run MV.C10.Proofs_BFS MV.C10.Proofs_Refine
         MV.C10.Proofs_Trav MV.C10.Proofs_Forest MV.C10.Proofs_Check MV.C10.Proofs_Conn MV.C10.Proofs_Kruskal
-        MV.C10.Proofs_Orient MV.C10.Proofs_KModel MV.C10.Proofs.
+        MV.C10.Proofs_Orient MV.C10.Proofs_KModel MV.C10.Proofs MV.C10.Proofs_More.
 
 (* --- tie to the generated source: the decision taken by put_neighbours_in_queue for one neighbour slot
        (generated l_slot / avoid_edge) is "admissible and not yet seen"; admissible means: not in the
@@ -253,3 +253,39 @@ Theorem C10_tables_up_to_children_order : forall n root inT par ch ch' dep,
   tree_tables n root inT par ch' dep.
 Proof. exact tree_tables_perm. Qed.
 Print Assumptions C10_tables_up_to_children_order.
+
+(* --- round 7.  "exactly one tree per connected component": on a symmetric admissible adjacency (where
+       connectivity is an equivalence, C10_connectivity_is_an_equivalence) every element is connected to exactly
+       one root of the forest, and a forest of k trees on n elements has n - k edges (full) *)
+Theorem C10_connectivity_is_an_equivalence : forall nb, sym_nb nb ->
+  (forall u, conn nb u u) /\ (forall u v, conn nb u v -> conn nb v u) /\
+  (forall u v w, conn nb u v -> conn nb v w -> conn nb u w).
+Proof. exact conn_equivalence. Qed.
+Print Assumptions C10_connectivity_is_an_equivalence.
+
+Theorem C10_forest_one_tree_per_component : forall k polyline g,
+  wf_raw g ->
+  let c := forest_cfg k polyline in
+  let g' := forest_graph k g in
+  sym_nb (adm_nbrs c g') ->
+  let f := forest k polyline g in
+  (forall v, v < length g' ->
+     exists r, In r (forest_roots f) /\ conn (adm_nbrs c g') r v /\
+               forall r', In r' (forest_roots f) -> conn (adm_nbrs c g') r' v -> r' = r) /\
+  length (forest_edges f) + length f = length g'.
+Proof. exact forest_components. Qed.
+Print Assumptions C10_forest_one_tree_per_component.
+
+(* --- traverse("BFS") is breadth-first (full): on any tables of a rooted tree the depths along the output never
+       decrease; on the BFS tree these depths are the hop distances to the root *)
+Theorem C10_traverse_bfs_level_by_level : forall n root inT par ch dep,
+  tree_tables n root inT par ch dep ->
+  forall out fin, traverse true root ch = (out, fin) -> nondecr (map (fun e => dep (fst e)) out).
+Proof. exact traverse_bfs_level_order. Qed.
+Print Assumptions C10_traverse_bfs_level_by_level.
+
+Theorem C10_traverse_bfs_by_hop_distance : forall c g root t, wf_raw g -> bfs c g root = Some t ->
+  forall out fin, traverse true (t_root t) (t_children t) = (out, fin) ->
+  nondecr (map (fun e => depth_of t (fst e)) out).
+Proof. exact bfs_traverse_by_distance. Qed.
+Print Assumptions C10_traverse_bfs_by_hop_distance.
